@@ -57,7 +57,7 @@ func init() {
 			x.want, x.mag, x.cu = colOf(w), colOf(m), 6
 			return true
 		},
-		call: func(x *caseX) { x.rc.V.AddScaledVec(V(x, 0), x.p.alpha, V(x, 1)); x.outM = x.rc.V }})
+		call: func(x *caseX) { x.rc.V.AddScaledVec(V(x, 0), x.alphaS(), V(x, 1)); x.outM = x.rc.V }})
 
 	v1 := []slot{{name: "a", t: sVector}}
 	v1Pats := []pattern{
@@ -76,7 +76,7 @@ func init() {
 			x.want = colOf(w)
 			return true
 		},
-		call: func(x *caseX) { x.rc.V.ScaleVec(x.p.alpha, V(x, 0)); x.outM = x.rc.V }})
+		call: func(x *caseX) { x.rc.V.ScaleVec(x.alphaS(), V(x, 0)); x.outM = x.rc.V }})
 	addOp(&opSpec{name: "VecDense.CloneFromVec", recv: rVec, slots: v1, pats: v1Pats,
 		model: func(x *caseX) bool { x.want = colOf(append([]float64(nil), x.val[0].D...)); return true },
 		call:  func(x *caseX) { x.rc.V.CloneFromVec(V(x, 0)); x.outM = x.rc.V }})
